@@ -144,6 +144,32 @@ def run(ctx, drv):
             if {id(x) for x in a2._contents} != {id(x) for x in final}:
                 ctx.fail("order-dependent", {"objs": [list(s.objectives) for s in flat], "maximise": list(dirs)},
                          sorted(map(id, a2._contents)) and "differs", "same membership", "core.Archive.add")
+    # ---- the stand-alone filter nondominated() on its own stream: few objectives (incl. one), all-infeasible and mixed sets,
+    # ties; judged against the archive built from the same list and against the definition (nobody offered is better)
+    for k in range(1500 if ctx.quick() else 30000):
+        nobj = rng.choice([1, 1, 2, 3])
+        dirs = tuple(rng.random() < 0.4 for _ in range(nobj))
+        constrained = rng.random() < 0.6
+        p = mk_problem(nobj, dirs, constrained)
+        grid = list(range(0, rng.choice([2, 3, 5])))
+        cvs = rng.choice([[0.0], [0.5, 3.0, 0.5, 1.0], [0.0, 0.0, 1.0, 2.0], [2.0]]) if constrained else [0.0]
+        sols = [mk_sol(p, [plat.rand_value(rng, grid, special=0.03) for _ in range(nobj)], float(rng.choice(cvs))) for _ in range(rng.randrange(0, 9))]
+        nd = call(C.nondominated, list(sols))
+        arch = C.Archive()
+        arch += list(sols)
+        want = [s for s in sols if not any(plat.expected_cmp(constrained, dirs, t, s) < 0 for t in sols)]
+        inp = {"maximise": list(dirs), "constrained": constrained, "solutions": [[list(map(float, s.objectives)), float(s.constraint_violation)] for s in sols]}
+        if isinstance(nd, str):
+            ctx.fail("nondominated-raises", inp, nd, "the non-dominated subset", "core.nondominated")
+        else:
+            # as sets of values: the archive keeps one of several identical twins, so compare value multisets modulo twins
+            key = lambda s: (tuple(map(float, s.objectives)), float(s.constraint_violation))
+            if {key(s) for s in nd} != {key(s) for s in want}:
+                ctx.fail("nondominated-is-not-the-nondominated-subset", inp, sorted(key(s) for s in nd), sorted({key(s) for s in want}), "core.nondominated")
+            elif {key(s) for s in nd} != {key(s) for s in arch._contents}:
+                ctx.fail("nondominated-differs-from-archive", inp, sorted(key(s) for s in nd), sorted(key(s) for s in arch._contents), "core.nondominated")
+        ctx.case(("nd", repr(inp)), len(want) < len(sols))
+    ctx.count("standalone_filter_cases", 1500 if ctx.quick() else 30000)
     L = 4 if ctx.quick() else 5
     nex = 0
     p = mk_problem(2, (False, False), False)
